@@ -56,7 +56,7 @@ def workbase():
     (different REPO) never share a Cargo.toml"""
     base = os.path.join(CACHE, 'kani-src-%s' % hashlib.sha256(REPO.encode()).hexdigest()[:8])
     os.makedirs(base, exist_ok=True)
-    for sub in ('kani', 'replay'):
+    for sub in ('kani', 'replay', 'falsify'):
         subprocess.run(['rsync', '-a', '--delete', '--exclude', 'Cargo.toml', '--exclude', 'Cargo.lock', '--exclude', '.cargo',
                         os.path.join(ROOT, sub) + '/', os.path.join(base, sub) + '/'], check=False)
     return base
@@ -179,6 +179,45 @@ def replay(harness, counterexample):
     p = subprocess.run([exe, harness, hexs], stdout=subprocess.PIPE, stderr=subprocess.STDOUT)
     out = p.stdout.decode('utf-8', 'replace').strip()
     return dict(ran=True, cmd='%s %s %s' % (exe, harness, hexs), input_hex=hexs, outcome=out, fails_on_real_code=(p.returncode == 1))
+
+
+FALSIFY_FAMILIES = [
+    ('C07.flow', ('C07.flow.', 'C07.inflow.')),
+    ('C07.send', ('C07.inner.', 'C07.send.', 'C07.drain.', 'C07.cur.', 'C07.buffer.', 'C07.window.', 'C11.delivery-id.', 'C01.session.')),
+    ('C08.flow', ('C08.flow.', 'C08.drain.')),
+    ('C09.enforce', ('C09.enforce.',)),
+]
+
+
+def falsify_family(label):
+    for fam, pre in FALSIFY_FAMILIES:
+        if any(label.startswith(x) for x in pre):
+            return fam
+    return None
+
+
+def falsify(family, seed):
+    """search a concrete input on which the real function disagrees with the executable twin of the contract"""
+    base = workbase()
+    d = os.path.join(base, 'falsify')
+    tmpl = open(os.path.join(d, 'Cargo.toml.tmpl')).read().replace('@REPO@', REPO)
+    if not os.path.exists(os.path.join(d, 'Cargo.toml')) or open(os.path.join(d, 'Cargo.toml')).read() != tmpl:
+        open(os.path.join(d, 'Cargo.toml'), 'w').write(tmpl)
+    lock = os.path.join(REPO, 'Cargo.lock')
+    if os.path.exists(lock) and not os.path.exists(os.path.join(d, 'Cargo.lock')):
+        open(os.path.join(d, 'Cargo.lock'), 'wb').write(open(lock, 'rb').read())
+    tgt = os.path.join(CACHE, 'falsify-target-%s' % hashlib.sha256(REPO.encode()).hexdigest()[:8])
+    b = subprocess.run('cd %s && CARGO_NET_OFFLINE=true CARGO_TARGET_DIR=%s timeout 1200 cargo build --offline 2>&1 | tail -8' % (d, tgt), shell=True,
+                       stdout=subprocess.PIPE, stderr=subprocess.STDOUT)
+    exe = os.path.join(tgt, 'debug', 'verif-falsify')
+    if b.returncode != 0 or not os.path.exists(exe) or 'error' in b.stdout.decode('utf-8', 'replace'):
+        return dict(ran=False, reason='falsifier build failed: ' + b.stdout.decode('utf-8', 'replace')[-500:])
+    try:
+        p = subprocess.run([exe, family, str(seed)], stdout=subprocess.PIPE, stderr=subprocess.STDOUT, timeout=600)
+    except subprocess.TimeoutExpired:
+        return dict(ran=False, reason='falsifier timeout')
+    out = p.stdout.decode('utf-8', 'replace').strip()
+    return dict(ran=True, cmd='%s %s %d' % (exe, family, seed), outcome=out[-1500:], falsified=(p.returncode == 1))
 
 
 def run_harnesses(hs, tier):
